@@ -14,10 +14,35 @@ import (
 type GovChaosAgent struct {
 	baseAgent
 	liquidVesting bool
+	cyclePool     uint64
+	cycleOn       bool
+}
+
+// edenCycle: governance switches one pool's Eden rewards on, off and on again with a few
+// blocks of ordinary joins/exits in between (checkpoints of reward denoms that are
+// temporarily not distributed).
+func (a *GovChaosAgent) edenCycle(s *Sim) {
+	const period = 11
+	if s.Height < 10 || (s.Height-10)%period != 0 {
+		return
+	}
+	if a.cyclePool == 0 {
+		pools := s.pools()
+		if len(pools) == 0 {
+			return
+		}
+		a.cyclePool = pick(a.rng, pools).PoolId
+	}
+	a.cycleOn = !a.cycleOn
+	s.Gov.Propose(&mastercheftypes.MsgTogglePoolEdenRewards{Authority: s.W.GovAddr.String(), PoolId: a.cyclePool, Enable: a.cycleOn})
+	s.Stats.Probe("gov_eden_reward_cycle_step")
 }
 
 func (a *GovChaosAgent) Step(s *Sim) {
 	r := a.rng
+	if s.Cfg.EdenCycle {
+		a.edenCycle(s)
+	}
 	if s.Height < 8 || r.Float64() >= s.Cfg.rate("govchaos")*0.25 {
 		return
 	}
